@@ -156,8 +156,12 @@ CHECKS = {
          'loop, action-line pass, get_txt_pos, wrapper; table obligations '
          're-proved on the generated tables). Second claim: longest match, '
          'copy of other characters and the replacement step are theorems, '
-         'the table is compared with the documented one by computation; '
-         'multi-language mode and replacement files are outside the '
+         'the table is compared with the documented one by computation, and '
+         'end to end through the main loop for documents of plain text, '
+         'special sequences, undeclared control words, comments, braces and '
+         'nested pass-through macros each special sequence shows as its '
+         'tabulated text at the position of the sequence '
+         '(C06_specials_end_to_end); replacement files are outside the '
          'fixed-point theorem',
     ref='6/C06, 11.2', technique='Coq proof (end-to-end fixed point, longest '
          'match) + exhaustive small strings against model and table'),
